@@ -124,6 +124,19 @@ def replay(pid, path):
             return 1
         print("does not reproduce on the current tree")
         return 0
+    if cex.get("mode") == "misc":
+        from .. import enga
+        from ..props import misc_probe
+
+        enga.init()
+        bad = [r for r in misc_probe.run() + misc_probe.run_nested() if r["key"] == cex.get("key") and r["status"] == "violation"]
+        for r in bad:
+            print("replay %s: %s" % (r["key"], r["detail"]))
+        if bad:
+            print("VIOLATION property=%s replay=%s" % (pid, path))
+            return 1
+        print("does not reproduce on the current tree")
+        return 0
     if cex.get("mode") != "crosshair":
         return None
     viol, info = chrun.replay(cex["module"], cex["func"], cex["args"])
